@@ -3,6 +3,7 @@
 package multiplex
 
 import (
+	"fmt"
 	"net"
 
 	"github.com/cbeuw/Cloak/internal/common"
@@ -155,6 +156,64 @@ func init() {
 					vrt.Fail("new-streams-refused", "OpenStream succeeded on the closed session after a late connection was attached")
 				}
 				vrt.Observe("how=%d gone=%d", how, gone)
+			},
+		}
+		return vx.RunSched(c, sc, sigOf("C12"))
+	}})
+}
+
+// C12 driver (g): several goroutines blocked in Read on the same stream (net.Conn allows it) when the
+// session is torn down - by a reset, by the local application, or by the peer's closing notice (an
+// explorer choice), on ordered and unordered sessions. "Every blocked read ... returns": all of them.
+func init() {
+	vx.Register(&vx.Scenario{Name: "mux.parkedreaders", Prop: "C12", Run: func(c *vx.Ctx) *vx.Report {
+		sc := &vrt.Scenario{
+			Opt:      vrt.Options{Delay: true, RandInt: chooseConnOpt()},
+			Classify: deadlockIs("blocked-calls-return: a Read parked on the stream never returned after the teardown"),
+			Main: func() {
+				r := newMuxRig(rigCfg{conns: 1, unit: 256, unordered: c.P("unordered", "0") == "1"})
+				st, _ := r.cli.OpenStream()
+				st.Write([]byte("x"))
+				conn, err := r.srv.Accept()
+				if err != nil {
+					vrt.Fail("harness", "Accept: %v", err)
+				}
+				b := make([]byte, 8)
+				conn.Read(b)
+				nr := c.PI("readers", 3)
+				var wg sync.WaitGroup
+				returned := 0
+				for i := 0; i < nr; i++ {
+					wg.Add(1)
+					vrt.Go(fmt.Sprintf("reader%d", i), func() {
+						defer wg.Done()
+						buf := make([]byte, 8)
+						for {
+							if _, err := conn.Read(buf); err != nil {
+								returned++
+								return
+							}
+						}
+					})
+				}
+				quiesce()
+				how := vrt.Choose(4, "teardown")
+				switch how {
+				case 0:
+					r.sa[0].Reset()
+				case 1:
+					r.srv.Close()
+				case 2:
+					r.cli.Close()
+				case 3:
+					st.Close() // only the stream ends: its readers get the end-of-stream error
+				}
+				quiesce()
+				if returned != nr {
+					vrt.Fail("blocked-calls-return", "teardown %d with %d Reads parked on one stream: %d returned", how, nr, returned)
+				}
+				wg.Wait()
+				vrt.Observe("how=%d", how)
 			},
 		}
 		return vx.RunSched(c, sc, sigOf("C12"))
